@@ -84,8 +84,8 @@ PROPS['C05'] = {
     'functions': ['anstyle::color::DisplayBuffer::{write_str,write_code,as_str,write_to}', 'AnsiColor/Ansi256Color/RgbColor::{as_fg_buffer,as_bg_buffer,as_underline_buffer,render_fg,render_bg}',
                   'Color::{render_fg,render_bg,render_underline,write_fg_to,write_bg_to,write_underline_to}', 'Effects::{render,write_to}', 'EffectsDisplay::fmt',
                   'Style::{fmt_to,write_to,render,render_reset,write_reset_to}', 'Display for Style/StyleDisplay/Reset/DisplayBuffer/NullFormatter'],
-    'quick': {'kani': [{'crate': 'anstyle', 'harnesses': REND_QUICK, 'timeout': 1500, 'mem_gb': 12}]},
-    'thorough': {'kani': [{'crate': 'anstyle', 'harnesses': REND_ALL, 'timeout': 3000, 'mem_gb': 12}]},
+    'quick': {'kani': [{'crate': 'anstyle', 'harnesses': REND_QUICK, 'timeout': 1500, 'mem_gb': 8, 'jobs': 8}]},
+    'thorough': {'kani': [{'crate': 'anstyle', 'harnesses': REND_ALL, 'timeout': 3000, 'mem_gb': 8, 'jobs': 8}]},
     'assumptions': ['core::fmt machinery (format_args!, Formatter::write_str/pad, fmt::write) as compiled by Kani',
                     'S4 (spec/sgr.rs) is the reference SGR interpreter; underline kinds are independent bits (the only reading under which all 4096 effect sets can round-trip)'],
     'explanation': 'Compositional: every colour buffer and every effect escape interprets (S4) to exactly its colour/effect (complete over all values); Style::write_to is the in-order concatenation of those parts for every style (symbolic, complete); Display paths and format flags are compared byte-for-byte on five concrete styles (bounded).',
@@ -166,4 +166,116 @@ PROPS['C06'] = {
                     'fmt::Adapter / write_fmt: CBMC does not finish on core::fmt::write (measured > 50 min); its error-saving logic is covered only by reading: listed as unverified',
                     'the inner writer honours the Write contract (returns n <= buf.len())'],
     'explanation': 'Kani verifies write/write_all against the scanner contract for every carried state, every scanner answer and every inner-writer outcome (accept any prefix, fail with Interrupted/WouldBlock/Other): exactly one inner write per call, the reported count ends at the last accepted visible byte, the state is replayed over exactly the consumed prefix from the entry state, errors surface with their kind and leave state and delivery untouched. Verus (strip_scan + strip_fold) supplies what the routed pieces and states mean.',
+}
+
+SGR_SHAPES_Q = ['sgr_shape_1', 'sgr_shape_2_semi', 'sgr_shape_2_colon', 'sgr_shape_3_semi', 'sgr_shape_3_colon', 'sgr_shape_3_colon_semi',
+                'sgr_shape_4_semi', 'sgr_shape_5_semi', 'sgr_print_execute', 'sgr_to_ansi_color']
+SGR_SHAPES_T = SGR_SHAPES_Q + ['sgr_shape_3_semi_colon', 'sgr_shape_4_colon3_semi', 'sgr_shape_5_colon', 'sgr_shape_6_semi']
+PROPS['C07'] = {
+    'level': 'model_checking',
+    'functions': ['anstream::adapter::wincon::WinconCapture::{csi_dispatch,print,execute,reset}', 'anstream::adapter::wincon::to_ansi_color',
+                  'via C02: anstyle_parse::Parser::advance (the events csi_dispatch receives)'],
+    'quick': {'kani': [{'crate': 'anstream', 'harnesses': SGR_SHAPES_Q, 'timeout': 1500, 'mem_gb': 8, 'jobs': 6}]},
+    'thorough': {'kani': [{'crate': 'anstream', 'harnesses': SGR_SHAPES_T, 'timeout': 3000, 'mem_gb': 8, 'jobs': 6}]},
+    'bounded': {h: 'parameter-list shape fixed (see harness name: number of values and which are joined by `:`), values and entry style fully symbolic' for h in SGR_SHAPES_T if h.startswith('sgr_shape')},
+    'rule': 'one case = one parameter-list shape (count of values and ;/: pattern) verified for all 2^16 values per position x all entry styles x ignore flag x final byte x pending text; non-trivial = harness verified and its cover (a defined sequence that changes the style) reached',
+    'assumptions': ['S4 (spec/sgr.rs) is the reference; codes the statement does not list (5, 22-29, 59) and groups the standards leave open (38 followed by neither 5 nor 2, values > 255, 4:n when another underline kind is already set) are unconstrained',
+                    'Params are built through Params::push/extend exposed by an append-only cfg(kani) hook in the scratch copy of anstyle-parse; that the parser builds them so from bytes is C02',
+                    'next_bytes/extract_next (run emission over a chunk) is not under contract here: only csi_dispatch, print, execute'],
+    'explanation': 'csi_dispatch is verified against the S4 SGR semantics for enumerated parameter-list shapes with symbolic values: bounded in shape, complete in values and entry style.',
+}
+
+AUTO_C09 = {'crate': 'anstream', 'harnesses': ['auto_choice_precedence', 'auto_auto_uses_choice'], 'timeout': 900, 'flags': ['-Z', 'stubbing']}
+PROPS['C09'] = {
+    'level': 'proof',
+    'functions': ['anstream::auto::choice', 'AutoStream::{choice,auto}', 'anstyle_query::{clicolor,clicolor_force,no_color,term_supports_color,term_supports_ansi_color,truecolor,is_ci,non_empty}',
+                  'colorchoice_clap::Color::as_choice', 'colorchoice::AtomicChoice::{from_choice,to_choice,get,set,new}', 'ColorChoice::{global,write_global,default}'],
+    'quick': {'kani': [AUTO_C09,
+        {'crate': 'anstyle-query', 'harnesses': ['query_no_color', 'query_clicolor_force', 'query_clicolor', 'query_term', 'query_truecolor', 'query_ci'], 'timeout': 900, 'flags': ['-Z', 'stubbing']},
+        {'crate': 'colorchoice', 'harnesses': ['choice_encoding_total'], 'timeout': 600},
+        {'crate': 'colorchoice-clap', 'harnesses': ['clap_flag_mapping'], 'timeout': 900}]},
+    'assumptions': ['modular: choice() is verified against free values for its seven inputs (global choice, five probes, is_terminal) — complete over all 384 combinations',
+                    'each probe is verified against a replaced std::env::var_os over nine candidate values (unset, "", "0", "1", "dumb", "xterm-256color", "truecolor", "24bit", "true") — bounded in content',
+                    'the process environment and isatty (is_terminal_polyfill) are the operating system boundary: assumed'],
+    'explanation': 'The precedence chain of the statement is the postcondition of choice() with every callee replaced by its contract (Kani stubs); the probes and the flag/atomic encodings are verified separately.',
+    'bounded': {h: 'variable content drawn from nine candidate strings' for h in ['query_no_color', 'query_clicolor_force', 'query_clicolor', 'query_term', 'query_truecolor', 'query_ci']},
+}
+PROPS['C09']['thorough'] = PROPS['C09']['quick']
+PROPS['C08'] = {
+    'level': 'model_checking',
+    'functions': ['AutoStream::{new,auto,always_ansi,always_ansi_,always,never,into_inner,current_choice,choice}', 'impl Write for AutoStream (write, write_vectored, flush, write_all)'],
+    'quick': {'kani': [
+        {'crate': 'anstream', 'harnesses': ['auto_new_dispatch', 'auto_passthrough_forwards', 'auto_never_is_strip_stream', 'auto_auto_uses_choice'], 'timeout': 1500, 'flags': ['-Z', 'stubbing'], 'mem_gb': 12}]},
+    'rule': 'one case = one harness over all colour choices / all four Write methods / symbolic buffers of <= 3 bytes; non-trivial = verified',
+    'bounded': {'auto_passthrough_forwards': 'buffers <= 3 symbolic bytes, one call per method (every call is stateless in pass-through mode)',
+                'auto_never_is_strip_stream': 'one call per method on a 2-byte buffer; that the call is routed through StripStream is what is checked, StripStream itself is C06'},
+    'assumptions': ['write_fmt (both arms) and to_adapted_string are not covered: CBMC does not finish on core::fmt::write',
+                    'the Never arm is verified to route through StripStream (C06 verifies that stream); the Windows console arm is outside the claim',
+                    'inner writers other than the in-crate mock (Vec<u8>, Box<dyn Write>, File) are assumed to behave alike (the code is generic in S)'],
+    'explanation': 'Constructor dispatch for all choices, the reported mode, byte-identical forwarding in pass-through mode and routing of the Never mode through the strip stream, all through one lock acquisition per call.',
+}
+PROPS['C08']['thorough'] = PROPS['C08']['quick']
+
+PROPS['C12'] = {
+    'level': 'model_checking',
+    'functions': ['anstyle_ls::parse'],
+    'quick': {'kani': [{'crate': 'anstyle-ls', 'harnesses': ['ls_codes_1', 'ls_codes_2', 'ls_codes_3', 'ls_reject_and_none'], 'timeout': 1500, 'mem_gb': 10}]},
+    'thorough': {'kani': [{'crate': 'anstyle-ls', 'harnesses': ['ls_codes_1', 'ls_codes_2', 'ls_codes_3', 'ls_codes_5', 'ls_reject_and_none'], 'timeout': 3000, 'mem_gb': 12}]},
+    'bounded': {'ls_codes_1': 'one code, all 256 values, 3-digit decimal field', 'ls_codes_2': 'two codes, all values', 'ls_codes_3': 'three codes, all values (covers 38;5;n)',
+                'ls_codes_5': 'five codes, all values (covers 38;2;r;g;b)', 'ls_reject_and_none': 'ten concrete inputs'},
+    'rule': 'one case = one list length with all 256^n code values (fields rendered as 3-digit decimals); non-trivial = verified with a style-changing list reached',
+    'assumptions': ['field spellings other than three digits (no leading zeros, more digits) go through the same std u8::from_str, assumed',
+                    'lists longer than five codes are not explored; 38/48/58 not followed by 5;n or 2;r;g;b (truncated or malformed groups) are outside the statement and unconstrained'],
+    'explanation': 'Kani runs the real parse on texts of fixed shape and symbolic numeric content and compares the result with the statement\'s left-to-right semantics; bounded in list length.',
+}
+
+PROPS['C11'] = {
+    'level': 'model_checking',
+    'functions': ['anstyle_git::parse_color'],
+    'quick': {'kani': [{'crate': 'anstyle-git', 'harnesses': ['git_color_word_n4', 'git_color_hash6', 'git_color_hash_non_ascii', 'git_color_names'], 'timeout': 1500, 'mem_gb': 10}]},
+    'bounded': {'git_color_word_n4': 'every UTF-8 word of up to 4 bytes', 'git_color_hash6': '`#` + six bytes over an 8-symbol hex/non-hex alphabet (all 262144 words)',
+                'git_color_hash_non_ascii': 'five concrete words', 'git_color_names': 'twelve concrete words'},
+    'rule': 'one case = one word family (all UTF-8 words <= 4 bytes; all #-words over the alphabet; concrete names); non-trivial = verified with covers reached',
+    'assumptions': ['the word loop of anstyle_git::parse (split_whitespace, to_lowercase, attribute keywords, colour counter, error values) is NOT under contract: CBMC does not finish on the Unicode case-folding and allocation code; only parse_color is verified',
+                    'the value of a three-digit `#rgb` colour and decimals written with a leading `+` are outside the statement and unconstrained',
+                    'the print-and-reparse round trip is not covered'],
+    'explanation': 'Kani checks parse_color against the documented colour syntax (S7) for every UTF-8 word up to 4 bytes, every `#`+6 word over a hex/non-hex alphabet, and the names; no panic on any of them.',
+}
+PROPS['C11']['thorough'] = PROPS['C11']['quick']
+
+PROPS['C17'] = {
+    'level': 'model_checking',
+    'functions': ['anstyle_wincon::ansi::write_colored', 'WinconStream for dyn Write (forwarding)'],
+    'quick': {'kani': [{'crate': 'anstyle-wincon', 'harnesses': ['wincon_ansi_write_colored', 'wincon_ansi_trait_dyn_write'], 'timeout': 2400, 'mem_gb': 12}]},
+    'bounded': {'wincon_ansi_write_colored': 'all 17x17 colour pairs, data 1-2 symbolic bytes, failure at any of the inner writes, any prefix of the data accepted',
+                'wincon_ansi_trait_dyn_write': 'one colour pair through the trait impl for dyn Write'},
+    'rule': 'one case = one harness over all colour pairs x data bytes x failure points x accepted prefixes; non-trivial = verified with short-write and error covers reached',
+    'assumptions': ['trait impls for Vec<u8>, File, stdio and their locks forward to the same function (not separately harnessed)', 'S4 (spec/sgr.rs) as SGR reference'],
+    'explanation': 'Kani checks write_colored against a scripted writer: codes-before-data interpret (S4) to exactly the requested colours, data forwarded unchanged, reset after, returned count is what the writer accepted for the data, inner errors surface.',
+}
+PROPS['C17']['thorough'] = PROPS['C17']['quick']
+
+PROPS['C20'] = {
+    'level': 'proof',
+    'functions': ['anstyle_parse::Parser::{advance,process_utf8,perform_state_change,perform_action} in the feature sets {utf8} (default), {core,utf8}, {core}, {}',
+                  'spec lemmas lemma_cap_irrelevant_step, lemma_full_buffer_drops, lemma_seven_bit_no_utf8'],
+    'quick': {'verus': ['parse_core', 'parse_core+core,utf8'], 'kani': [PARSE_LEAVES]},
+    'thorough': {'verus': ['parse_core', 'parse_core+core,utf8', 'parse_core+core', 'parse_core+'], 'kani': [PARSE_LEAVES]},
+    'bounded': {'parse_osc_dispatch_slices': 'default feature set only, payload <= 6 bytes'},
+    'assumptions': ['arrayvec::ArrayVec (core feature) is represented by a stand-in with the documented contract of len/is_full/push/clear (push requires !is_full): ASSUMED, arrayvec itself is not verified',
+                    'the same S2 model is the postcondition in every feature set, with the OSC capacity (None / 1024) as its only parameter; the CharAccumulator is abstract, so AsciiParser vs Utf8Parser cannot matter where it is never called (lemma_seven_bit_no_utf8)',
+                    'osc_dispatch over an ArrayVec payload is the same unsafe code; its Kani leaf runs in the default feature set only'],
+    'explanation': 'The one-step refinement of Parser::advance is re-proved by Verus on the text extracted under each feature set against the same model; spec-level lemmas show the capacity is unobservable while payloads fit, that a full buffer drops payload bytes and separators and nothing else, and that 7-bit input never reaches the UTF-8 accumulator.',
+}
+
+PROPS['C18'] = {
+    'level': 'model_checking',
+    'functions': ['anstream::wincon::{write,write_all,cap_wincon_color} (cut verbatim from the working tree and compiled on this platform)'],
+    'quick': {'kani': [{'crate': 'anstream', 'harnesses': ['wincon_cap_color', 'wincon_write_all_case0', 'wincon_write_all_case1', 'wincon_write_reports_progress'], 'timeout': 2400, 'mem_gb': 12, 'jobs': 4}]},
+    'thorough': {'kani': [{'crate': 'anstream', 'harnesses': ['wincon_cap_color', 'wincon_write_all_case0', 'wincon_write_all_case1', 'wincon_write_all_case2', 'wincon_write_all_case3', 'wincon_write_reports_progress'], 'timeout': 3000, 'mem_gb': 12, 'jobs': 6}]},
+    'bounded': {h: 'one concrete styled input against every console script with at most two misbehaving calls (short write of any length, zero write, Interrupted, Other)' for h in ['wincon_write_all_case0', 'wincon_write_all_case1', 'wincon_write_all_case2', 'wincon_write_all_case3', 'wincon_write_reports_progress']},
+    'rule': 'one case = one concrete escape-rich input x all console scripts with <= 2 faults; non-trivial = verified',
+    'assumptions': ['inputs are four fixed escape-rich strings: that the runs handed over are the right runs for *every* input rests on C02 (parser) and C07 (SGR interpretation)',
+                    'impl Write for WinconStream, write_fmt and write_vectored only compile on Windows and are not covered; chunked input is not covered here'],
+    'explanation': 'The platform-independent functions of the console stream are extracted verbatim and run by Kani against a recording console whose every call may accept any prefix, nothing, or fail.',
 }
